@@ -717,40 +717,36 @@ count and elapsed expressions, what the failure events report, the two clock sou
 them (`applyRes`, `addOrEnqueue`, `newWaiter`, `Waiter.replay`, `inProgToAttempt`, `execCmd`, `C05.runWorkerAttempt`,
 `Policy.retryInfo`) -/
 theorem C05_accounting_source_shape :
-    GenRetryAcct.failuresExprs = ["this_execution.attempts + 1"] ∧
-    GenRetryAcct.elapsedExprs = ["result.failed_at - this_execution.first_attempt_at"] ∧
-    GenRetryAcct.totalAttemptsExprs = ["this_execution.attempts + 1"] ∧
-    GenRetryAcct.reportElapsedExprs = ["result.failed_at - this_execution.first_attempt_at"] ∧
-    GenRetryAcct.retryQueueKwargs = [("event", "tick.event"), ("delay", "delay"), ("step_name", "tick.step_name"),
-      ("attempts", "this_execution.attempts + 1"), ("first_attempt_at", "this_execution.first_attempt_at"),
-      ("last_exception", "result.exception"), ("last_failed_at", "result.failed_at")] ∧
+    -- `retry_policy.next(elapsed, failures, exception)` (names of locals erased, single-assignment locals inlined)
+    GenRetryAcct.policyNextArgs = ["_.failed_at - _.first_attempt_at", "_.attempts + 1", "_.exception"] ∧
+    GenRetryAcct.retryQueueKwargs = [("event", "_.event"), ("step_name", "_.step_name"), ("attempts", "_.attempts + 1"),
+      ("first_attempt_at", "_.first_attempt_at"), ("last_exception", "_.exception"), ("last_failed_at", "_.failed_at")] ∧
     -- a returned event and a `StepFailedEvent` for its handler start fresh records
     GenRetryAcct.otherQueueAcctKwargs = [[], []] ∧
-    GenRetryAcct.stepFailedKwargs = [("attempts", "total_attempts"), ("elapsed_seconds", "elapsed")] ∧
-    GenRetryAcct.workflowFailedKwargs = [("attempts", "total_attempts"), ("elapsed_seconds", "elapsed")] ∧
-    GenRetryAcct.newWaiterKwargs = [("attempts", "this_execution.attempts"), ("first_attempt_at", "this_execution.first_attempt_at"),
-      ("last_exception", "this_execution.last_exception"), ("last_failed_at", "this_execution.last_failed_at")] ∧
-    GenRetryAcct.replayKwargs = [("attempts", "waiter.attempts"), ("first_attempt_at", "waiter.first_attempt_at"),
-      ("last_exception", "waiter.last_exception"), ("last_failed_at", "waiter.last_failed_at")] ∧
+    GenRetryAcct.stepFailedKwargs = [("attempts", "_.attempts + 1"), ("elapsed_seconds", "_.failed_at - _.first_attempt_at")] ∧
+    GenRetryAcct.workflowFailedKwargs = [("attempts", "_.attempts + 1"), ("elapsed_seconds", "_.failed_at - _.first_attempt_at")] ∧
+    GenRetryAcct.newWaiterKwargs = [("attempts", "_.attempts"), ("first_attempt_at", "_.first_attempt_at"),
+      ("last_exception", "_.last_exception"), ("last_failed_at", "_.last_failed_at")] ∧
+    GenRetryAcct.replayKwargs = [("attempts", "_.attempts"), ("first_attempt_at", "_.first_attempt_at"),
+      ("last_exception", "_.last_exception"), ("last_failed_at", "_.last_failed_at")] ∧
     -- the only other `EventAttempt` is the one `_process_add_event_tick` rebuilds from the tick it processes
-    GenRetryAcct.otherEventAttempts = ["_process_add_event_tick:attempts=tick.attempts,first_attempt_at=tick.first_attempt_at,last_exception=tick.last_exception,last_failed_at=tick.last_failed_at"] ∧
-    GenRetryAcct.rewindKwargs = [("attempts", "in_progress.attempts"), ("first_attempt_at", "in_progress.first_attempt_at"),
-      ("last_exception", "in_progress.last_exception"), ("last_failed_at", "in_progress.last_failed_at")] ∧
-    GenRetryAcct.admitKwargs = [("attempts", "event.attempts or 0"), ("first_attempt_at", "event.first_attempt_at or now_seconds"),
-      ("last_exception", "event.last_exception"), ("last_failed_at", "event.last_failed_at")] ∧
-    GenRetryAcct.runWorkerRetryKwargs = [("retry_number", "worker.attempts"), ("first_attempt_at", "worker.first_attempt_at"),
-      ("last_exception", "worker.last_exception"), ("last_failed_at", "worker.last_failed_at")] ∧
-    GenRetryAcct.queueTickKwargs = [("attempts", "command.attempts"), ("first_attempt_at", "command.first_attempt_at"),
-      ("last_exception", "command.last_exception"), ("last_failed_at", "command.last_failed_at")] ∧
+    GenRetryAcct.otherEventAttempts = ["_process_add_event_tick:attempts=_.attempts,first_attempt_at=_.first_attempt_at,last_exception=_.last_exception,last_failed_at=_.last_failed_at"] ∧
+    GenRetryAcct.rewindKwargs = [("attempts", "_.attempts"), ("first_attempt_at", "_.first_attempt_at"),
+      ("last_exception", "_.last_exception"), ("last_failed_at", "_.last_failed_at")] ∧
+    GenRetryAcct.admitKwargs = [("attempts", "_.attempts or 0"), ("first_attempt_at", "_.first_attempt_at or _"),
+      ("last_exception", "_.last_exception"), ("last_failed_at", "_.last_failed_at")] ∧
+    GenRetryAcct.runWorkerRetryKwargs = [("retry_number", "_.attempts"), ("first_attempt_at", "_.first_attempt_at"),
+      ("last_exception", "_.last_exception"), ("last_failed_at", "_.last_failed_at")] ∧
+    GenRetryAcct.queueTickKwargs = [("attempts", "_.attempts"), ("first_attempt_at", "_.first_attempt_at"),
+      ("last_exception", "_.last_exception"), ("last_failed_at", "_.last_failed_at")] ∧
     -- one clock: failures are stamped with `time.time()` (step wrapper) or the adapter's `get_now()`, which on BasicRuntime is `time.time()`
-    GenRetryAcct.loopFailedAt = [("failed_at", "await self.adapter.get_now()")] ∧
+    GenRetryAcct.loopFailedAt = [("failed_at", "await _.adapter.get_now()")] ∧
     GenRetryAcct.wrapperFailedAt = [[("failed_at", "time.time()")]] ∧
     GenRetryAcct.basicGetNow = "return time.time()" ∧
-    GenRetryAcct.retryInfoZeroCond = "retry.retry_number <= 0 or not retry.first_attempt_at" ∧
-    GenRetryAcct.retryInfoElapsed = ["0.0", "max(0.0, time.time() - retry.first_attempt_at)"] ∧
-    GenRetryAcct.retryInfoKwargs = [("retry_number", "retry.retry_number"), ("elapsed_seconds", "elapsed"),
-      ("last_exception", "retry.last_exception"), ("last_failed_at", "last_failed_at")] := by
-  refine ⟨rfl, rfl, rfl, rfl, rfl, rfl, rfl, rfl, rfl, rfl, rfl, rfl, rfl, rfl, rfl, rfl, rfl, rfl, rfl, rfl, rfl⟩
+    GenRetryAcct.retryInfoZeroCond = "_.retry.retry_number <= 0 or not _.retry.first_attempt_at" ∧
+    GenRetryAcct.retryInfoElapsed = ["0.0", "max(0.0, time.time() - _.retry.first_attempt_at)"] ∧
+    GenRetryAcct.retryInfoKwargs = [("retry_number", "_.retry.retry_number"), ("last_exception", "_.retry.last_exception")] := by
+  refine ⟨rfl, rfl, rfl, rfl, rfl, rfl, rfl, rfl, rfl, rfl, rfl, rfl, rfl, rfl, rfl, rfl, rfl, rfl⟩
 
 /-! ## one failed execution, one successor
 
